@@ -164,6 +164,7 @@ func compounds(es []elem) []op {
 // family is one exhaustive search: all histories of Alpha-symbols up to Depth after Prefix.
 type family struct {
 	Name   string
+	Clock  int64 // Unix ns at which the virtual clock starts (0: the scheduler's default)
 	Start  int64 // first true sequence number on every (direction, SSRC)
 	Prefix []op
 	Alpha  []op
@@ -260,6 +261,10 @@ func families(tier string) []family {
 		fs = append(fs, family{Name: "remote-figures-A-deep", Start: 65535,
 			Alpha: []op{rt[0], rt[2], rt[5], rt[6], rt[7], rt[8], rt[9], rt[10], rt[13], rt[14], rt[15]}, Depth: 7, Shards: 11, Dedup: true})
 	}
+	// F3c: the same figures when the middle 32 bits of the NTP time (LSR, LRR) wrap between the reports: the clock
+	// starts 2.5 s before an instant whose NTP seconds are a multiple of 65536
+	lw := []op{rt[0], rt[2], rt[5], rt[6], rt[8], rt[9], rt[10], rt[13], rt[15], rt[16]}
+	fs = append(fs, family{Name: "remote-figures-across-lsr-wrap", Clock: 1_700_036_989_500_000_000, Start: 100, Alpha: lw, Depth: pick(thorough, 6, 5), Shards: pick(thorough, 10, 5), Dedup: true})
 	// F3b: echoes of the fifth latest sender report / receiver reference time (four of each sent at distinct instants before)
 	var wp []op
 	for k := 0; k < 4; k++ {
